@@ -116,7 +116,7 @@ fn main() {
             if o.max_wall_s == 0 {
                 o.max_wall_s = match o.tier {
                     Tier::Quick => 1500,
-                    Tier::Thorough => 4 * 3600,
+                    Tier::Thorough => 3000,
                 };
             }
             println!("VERIF_SEED={}", o.seed);
